@@ -160,6 +160,43 @@ impl SRule
         s
     }
 
+    /* The same rule with its script translated to POSIX shell (used only by the RealSystem
+       differential run): emit = printf salt + cat inputs into the target, then chmod. */
+    pub fn render_shell(&self) -> String
+    {
+        let mut s = String::new();
+        for t in self.targets.iter() { s.push_str(t); s.push('\n'); }
+        s.push_str(":\n");
+        for t in self.sources.iter() { s.push_str(t); s.push('\n'); }
+        s.push_str(":\n");
+        let mut first = true;
+        for l in self.lines.iter()
+        {
+            if !first { s.push_str(";\n"); }
+            first = false;
+            match l
+            {
+                Line::Emit{ target, salt, inputs, exec } =>
+                {
+                    let ins = inputs.join(" ");
+                    if inputs.len() > 0
+                    {
+                        s.push_str(&format!("cat {} > /dev/null && {{ printf '%s' '{}'; cat {}; }} > {} && chmod {} {}\n", ins, salt, ins, target, if *exec { "+x" } else { "-x" }, target));
+                    }
+                    else
+                    {
+                        s.push_str(&format!("printf '%s' '{}' > {} && chmod {} {}\n", salt, target, if *exec { "+x" } else { "-x" }, target));
+                    }
+                },
+                Line::FailIf{ input } => s.push_str(&format!("! grep -q FAIL {}\n", input)),
+                Line::Fail => s.push_str("false\n"),
+            }
+        }
+        if self.lines.len() == 0 { s.push_str("true\n"); }
+        s.push_str(":\n");
+        s
+    }
+
     pub fn to_j(&self) -> J
     {
         J::obj()
